@@ -41,6 +41,17 @@ def Counter.decrement (c : Counter) : Counter :=
   { c with current := (c.current + two64 - 1) % two64,
            accepting := c.accepting || decide ((c.current + two64 - 1) % two64 ≤ c.resume) }
 
+/-- Saturating load (every serve loop always has a client waiting, so an acceptor that got past the
+limiter is back at once for the next connection): as many `increment`s as succeed. -/
+def Counter.refill : Nat → Counter → Counter
+  | 0, c => c
+  | fuel + 1, c => if c.increment.2 then Counter.refill fuel c.increment.1 else c
+
+/-- Declarative reading of one release under saturating load, from the property statement alone: the
+number falls by one; if that is at or below `resume` the limiter reopens and fills up to `stop` again,
+otherwise it stays where it is (a sawtooth). -/
+def sawNext (stop resume n : Nat) : Nat := if n - 1 ≤ resume then stop else n - 1
+
 /-- What `limitListener.decrement` calls on the condition variable. -/
 inductive Wake | signal | broadcast
 deriving DecidableEq, Repr
